@@ -16,6 +16,7 @@ func init() {
 			"ERR-CHECKED / ERR-PROP / ERR-NILNIL: every builder tests each callee's own error, propagates it, never returns (nil, nil); parser functions propagate errors; PV-OKUSE: parseValue's nested elements",
 			"LP-ERRPATH: stage failures become __error__ labels with the line kept",
 			"PF-ALLOC: sizes of make([]T, ..) derive from len/cap of existing data, never from a query parameter",
+			"PF-NILCLOSE; ERR-PROP of the open chain (a swallowed failure leaves a nil reader that is dereferenced later)",
 		},
 		NotDecided: []string{
 			"termination of loops (lexer scanners, IPLineFilter, stepper – the last relies on C16's positivity for CLI callers)",
